@@ -257,6 +257,27 @@ func cmdCodec(args []string) int {
 					}
 					want = append(want, batch...)
 				}
+				if r.Intn(2) == 0 {
+					// close and reopen the log, append more, then read everything back
+					path := ""
+					if ents, _ := os.ReadDir(dir); len(ents) == 1 {
+						path = join(dir, ents[0].Name())
+					}
+					if err := w.Close(); err != nil {
+						return "close: " + err.Error()
+					}
+					w, err = wal.Open(path)
+					if err != nil {
+						return "reopen: " + err.Error()
+					}
+					for b := 0; b < 1+r.Intn(2); b++ {
+						batch, _ := genEntries(r, kl, vl, 1+r.Intn(3))
+						if err := w.Write(batch...); err != nil {
+							return "write after reopen: " + err.Error()
+						}
+						want = append(want, batch...)
+					}
+				}
 				got, err := w.Read()
 				if err != nil {
 					return "read: " + err.Error()
@@ -326,7 +347,27 @@ func cmdCodec(args []string) int {
 				for j := 0; j < 3; j++ { // more activity of this goroutine and the others
 					_, _ = blk.Encode()
 				}
+				// round trip while other goroutines use the same codecs
+				rt := safely(func() string {
+					var back table.Data
+					if err := back.Decode(c1); err != nil {
+						return "decode error: " + err.Error()
+					}
+					return eqEntries(es, back.Entries)
+				})
+				rt2 := safely(func() string {
+					var back table.Index
+					if err := back.Decode(c2); err != nil {
+						return "decode error: " + err.Error()
+					}
+					if !reflect.DeepEqual(idx, back) {
+						return "index differs"
+					}
+					return ""
+				})
 				mu.Lock()
+				stab = append(stab, CodecEvent{Ev: "RoundTrip", Codec: "Data(concurrent)", Equal: rt == "", MaxLen: 2, Detail: rt},
+					CodecEvent{Ev: "RoundTrip", Codec: "Index(concurrent)", Equal: rt2 == "", MaxLen: 2, Detail: rt2})
 				stab = append(stab, CodecEvent{Ev: "Stable", Codec: "Data.Encode", Equal: bytes.Equal(b1, c1)},
 					CodecEvent{Ev: "Stable", Codec: "table.Build", Equal: bytes.Equal(tb, ctb)},
 					CodecEvent{Ev: "Stable", Codec: "Index.Encode", Equal: bytes.Equal(b2, c2)})
@@ -342,7 +383,7 @@ func cmdCodec(args []string) int {
 			mu.Lock()
 			nn := len(stab)
 			mu.Unlock()
-			if nn >= 4*(*n/2)*3 {
+			if nn >= 4*(*n/2)*5 {
 				close(stop)
 				close(done)
 				return
